@@ -460,7 +460,7 @@ func c13gramBody(c *xplore.Ctx) (text, form string, fs []ev.Finding, skipped boo
 
 func c13run(r *ev.Run) {
 	th := thorough(r)
-	sets := []boundSet{{"struct<=2", []int{2, 0, 0}}}
+	sets := []boundSet{{"struct<=3", []int{3, 0, 0}}}
 	if th {
 		sets = []boundSet{{"struct<=2,value<=1", []int{2, 0, 1}}, {"struct<=3", []int{3, 0, 0}}}
 	}
